@@ -283,6 +283,7 @@ func genPool(r *rng, thorough bool, shard, shards int, jl *jobList) {
 			mk := func() poolChooser {
 				round := 0
 				done := false
+				extraWaits := 0 // further Wait calls made while an earlier Wait of the same round was still waiting
 				var choose func(st poolState) string
 				choose = func(st poolState) string {
 					if done {
@@ -300,7 +301,7 @@ func genPool(r *rng, thorough bool, shard, shards int, jl *jobList) {
 						}
 						return "s" + strconv.Itoa(st.submitted)
 					}
-					if st.waitCalls == round { // this round's Wait has not been called yet
+					if st.waitCalls == round+extraWaits { // this round's Wait has not been called yet
 						if inSubmit > 0 { // let every Submit return first (a Wait must not race with Add from zero)
 							if len(st.parked) == 0 {
 								return ""
@@ -315,6 +316,12 @@ func genPool(r *rng, thorough bool, shard, shards int, jl *jobList) {
 					if waiting {
 						if len(st.parked) == 0 {
 							return "" // cannot happen on a correct pool: Wait outstanding with nothing running
+						}
+						if st.waitCalls-st.waitDone < 3 && rr.chance(25) {
+							// a second (third) goroutine calls Wait while the first one is still waiting and tasks are still
+							// running: every one of them returns only when all submitted tasks have finished
+							extraWaits++
+							return "w"
 						}
 						return rel()
 					}
